@@ -78,6 +78,8 @@ type instOutcome struct {
 	violJobs  []*eng.ReplayJob
 	violObl   []eng.Oblig
 	wall      time.Duration
+	xAgree, xUnknown int
+	xDisagree string
 }
 
 func checkCmd(args []string) int {
@@ -89,6 +91,7 @@ func checkCmd(args []string) int {
 	noReplay := fs.Bool("no-replay", false, "skip native replays (debugging only; result is never a pass)")
 	timeoutMs := fs.Int("timeout-ms", 300000, "per-query solver timeout")
 	verbose := fs.Bool("v", false, "verbose")
+	xsolver := fs.String("xsolver", "", "second solver used to re-discharge passing instances (cross-check)")
 	fs.Parse(args[1:])
 	id := args[0]
 	spec := registry[id]
@@ -179,6 +182,17 @@ func checkCmd(args []string) int {
 			}
 			r := eng.Discharge(x, insts[i], eng.SolveOpts{Solver: *solver, TimeoutMs: *timeoutMs})
 			o.res = r
+			if *xsolver != "" && r.Status == "pass" {
+				r2 := eng.Discharge(x, insts[i], eng.SolveOpts{Solver: *xsolver, TimeoutMs: 120000})
+				switch r2.Status {
+				case "pass":
+					o.xAgree = 1
+				case "violation", "bound":
+					o.xDisagree = fmt.Sprintf("%s says %s (%d violations)", *xsolver, r2.Status, len(r2.Violations))
+				default:
+					o.xUnknown = 1
+				}
+			}
 			if r.ReachModel != nil {
 				o.reachJob = x.BuildReplay(insts[i], r.ReachModel, fmt.Sprintf("%d/reach", i))
 				o.reachJob.Expect = "reach"
@@ -256,6 +270,7 @@ func checkCmd(args []string) int {
 		terms, instrs                      int
 		oblig                              int
 		notes                              []string
+		xAgreeN, xUnknownN                 int
 	)
 	replayDir := filepath.Join(verifDir, "replays", id)
 	for i, o := range outs {
@@ -267,6 +282,13 @@ func checkCmd(args []string) int {
 			continue
 		}
 		r := o.res
+		xAgreeN += o.xAgree
+		xUnknownN += o.xUnknown
+		if o.xDisagree != "" {
+			fmt.Printf("INCONCLUSIVE %s: solvers disagree: %s\n", name, o.xDisagree)
+			inconclusive++
+			bad(2)
+		}
 		if r.ModelBad != "" {
 			fmt.Printf("INCONCLUSIVE %s: %s\n", name, r.ModelBad)
 			inconclusive++
@@ -447,6 +469,7 @@ func checkCmd(args []string) int {
 			"solver_s":                      solverS,
 			"reach_witnesses":               map[string]int{"total": reachTotal, "sat": reachSat, "replayed_and_agreed": validated},
 			"known_findings_hit":            knownHits,
+			"cross_solver":                  map[string]interface{}{"solver": *xsolver, "instances_agreeing": xAgreeN, "instances_undecided_by_second_solver": xUnknownN},
 			"inconclusive":                  inconclusive,
 			"states_note":                   "states = SMT term-DAG nodes generated from go/ssa; transitions = SSA instruction instances executed symbolically",
 			"notes":                         notes,
